@@ -1,4 +1,4 @@
-CONSTANTS DMax = 4
+CONSTANTS DMax = 5
 SPECIFICATION Spec
 INVARIANT RankOK
 INVARIANT OntoOK
